@@ -69,7 +69,7 @@ def headOK (nulΓ nulΔ : Nat → Bool → Bool) (rkΓ rkΔ : Nat → Nat) : Boo
   | ne, k, .dep a _ b =>
     headOK nulΓ nulΔ rkΓ rkΔ ne k a && (!(nullable nulΓ nulΔ ne a) || headOK nulΓ nulΔ rkΓ rkΔ ne k b)
   | ne, k, .emit _ g => headOK nulΓ nulΔ rkΓ rkΔ ne k g
-  | _, _, .reslice _ _ => true
+  | _, k, .reslice _ inner => headOK nulΓ nulΔ rkΓ rkΔ true k inner
   | _, _, .skipTo _ => true
   | ne, k, .prepend _ g => headOK nulΓ nulΔ rkΓ rkΔ ne k g
 
@@ -133,7 +133,7 @@ theorem allOK_head {nulΓ nulΔ rkΓ rkΔ K} : ∀ (g : G) (ne : Bool),
     simp only [headOK, Bool.and_eq_true, Bool.or_eq_true]
     exact ⟨iha ne h.1, Or.inr (ihb ne h.2)⟩
   | emit _ g ih => intro ne h; exact ih ne (by simpa [allOK] using h)
-  | reslice _ inner _ => intros; rfl
+  | reslice _ inner ih => intro ne h; exact ih true (by simpa [allOK] using h)
   | prepend _ g ih => intro ne h; exact ih ne (by simpa [allOK] using h)
 
 /-! ### consumption -/
